@@ -423,18 +423,25 @@ class AtomicSaver:
                 file_perms = self._default_file_perms
                 do_chmod = False  # respect the umask
 
+        self.part_file = None
         fd = os.open(self.part_path, self.open_flags, file_perms)
-        set_cloexec(fd)
-        self.part_file = os.fdopen(fd, self.mode, self.buffering)
+        try:
+            set_cloexec(fd)
+            self.part_file = os.fdopen(fd, self.mode, self.buffering)
 
-        # if default perms are overridden by the user or previous dest_path
-        # chmod away the effects of the umask
-        if do_chmod:
-            try:
+            # if default perms are overridden by the user or previous dest_path
+            # chmod away the effects of the umask
+            if do_chmod:
                 os.chmod(self.part_path, file_perms)
-            except OSError:
-                self.part_file.close()
-                raise
+        except Exception:
+            try:
+                if self.part_file:
+                    self.part_file.close()
+                else:
+                    os.close(fd)
+            finally:
+                self._rm_part_on_exc()
+            raise
         return
 
     def setup(self):
